@@ -128,7 +128,7 @@ pub fn run(ctx: &Ctx) -> i32 {
     let assignments: Vec<[&'static str; 4]> = if th {
         vec![["schnorr", "ed25519", "ecdsa", "ed25519"], ["ssh-ed25519", "mldsa44", "schnorr", "ecdsa"], ["ecdsa", "ssh-ecdsa-p256", "ed25519", "ssh-ed25519"], ["mldsa65", "ssh-dsa", "ssh-ed25519", "schnorr"]]
     } else { vec![["schnorr", "ed25519", "ecdsa", "ed25519"], ["ssh-ed25519", "mldsa44", "ed25519", "schnorr"]] };
-    let bases: Vec<M> = { let mut b = families::plain(if th { 4 } else { 3 }); b.extend(families::nsn().into_iter().take(if th { 10 } else { 1 })); b };
+    let bases: Vec<M> = { let mut b = families::plain(if th { 4 } else { 3 }); b.extend(families::nsn().into_iter().take(if th { 10 } else { 1 })); b.extend(families::valued_few().into_iter().step_by(if th { 1 } else { 5 })); b };
     let key = bind::key0();
     let mut acc = Acc::new();
     // scheme-level self-check: a signature made with a private key verifies under the matching public key, over 1500 fixed digests per scheme
@@ -207,6 +207,12 @@ pub fn run(ctx: &Ctx) -> i32 {
                                 check_all(&mut acc, &v, &ids, signers, "obscured", &|| cid(&format!("mask{mask}/{kind:?}")), false);
                             }
                         }
+                    }
+                    // the 'signed' PREDICATE itself obscured (at every position it occurs, also inside a metadata wrapper): the assertion is still found
+                    // by digest, its object is untouched and the subject digest is unchanged, so every signer still verifies
+                    for (kind, action) in super::c02::actions() {
+                        let t: HashSet<Digest> = [Digest::from_data(M::Known(3).digest())].into_iter().collect();
+                        if let Ok(v) = catch(|| e.elide_removing_set_with_action(&t, &action)) { acc.inc("obscured_variants"); check_all(&mut acc, &v, &ids, signers, "signed-predicate-obscured", &|| cid(&format!("signed-predicate/{kind:?}")), false); }
                     }
                     // transplant: the signature assertions on a different subject must not verify
                     let mut tr = Envelope::new("a different subject");
